@@ -50,6 +50,28 @@ pub open spec fn render(src: Seq<char>, words: Seq<WordShape>, ms: Seq<WordMatch
 pub open spec fn render_all(src: Seq<char>, words: Seq<WordShape>, ms: Seq<WordMatch>, l: Seq<char>, r: Seq<char>) -> Seq<char> {
     render(src, words, ms, l, r, words.len() as int) + src.subrange(word_start(words, words.len() as int), src.len() as int)
 }
+// C09 / C12: without matches nothing is highlighted: the rendering is the source itself, whatever the markers
+proof fn lemma_render_plain(src: Seq<char>, words: Seq<WordShape>, l: Seq<char>, r: Seq<char>, k: int)
+    requires words_wf(words, src.len() as int), 0 <= k <= words.len(),
+    ensures render(src, words, Seq::<WordMatch>::empty(), l, r, k) == src.subrange(0, word_start(words, k)),
+        k == words.len() ==> render_all(src, words, Seq::<WordMatch>::empty(), l, r) == src,
+    decreases k
+{
+    let e = Seq::<WordMatch>::empty();
+    if k > 0 {
+        lemma_render_plain(src, words, l, r, k - 1);
+        let w = words[k - 1];
+        let start = word_start(words, k - 1);
+        if k - 1 > 0 { assert(words[k - 2].slice.1 <= words[k - 1].slice.0); }
+        assert(first_match(e, k - 1, 0) is None);
+        assert(src.subrange(0, start) + src.subrange(start, w.slice.1 as int) == src.subrange(0, w.slice.1 as int));
+    }
+    if k == words.len() {
+        let ws = word_start(words, k);
+        assert(0 <= ws <= src.len());
+        assert(src.subrange(0, ws) + src.subrange(ws, src.len() as int) == src);
+    }
+}
 // C02: with the markers deleted the rendering is the source itself (nothing dropped, duplicated, reordered or altered)
 proof fn lemma_render_erase(src: Seq<char>, words: Seq<WordShape>, ms: Seq<WordMatch>, k: int)
     requires words_wf(words, src.len() as int), matches_wf(ms, words), 0 <= k <= words.len(),
